@@ -99,22 +99,23 @@ Variable h : list hobj.                    (* the VM's FINAL heap *)
 Variable imps : list (string * string).
 Variable vars : list (nat * val).
 Variable bound : nat.
+Variable okname : string -> bool.
 Hypothesis Hheap : Forall2 (rel_node al) ns h.
 Hypothesis Hwf : forallb (obj_wf P) h = true.
 Hypothesis Hvars : forall i x, i < bound -> nth_error al i = Some x ->
   exists y, lookup_var i vars = Some y /\ leaf_same x y = true.
-Hypothesis Hnames : forall m n, P (VGlobal m n) = true ->
+Hypothesis Hnames : forall m n, P (VGlobal m n) = true -> okname n = true ->
   leaf_same (VGlobal m n) (lookup_name n imps) = true.
 
 Definition denotes (n : nat) (e : expr) (v : val) : Prop :=
-  forall hp, fits n ns bound e = true -> rel al e v -> wfv P v = true ->
+  forall hp, fits n ns bound okname e = true -> rel al e v -> wfv P v = true ->
   exists v' hp', eval ns imps vars n e hp = Ok (v', hp ++ hp') /\
                  same_shape n h (hp ++ hp') v v' = true.
 
 Lemma eval_seq_denotes n :
   (forall e v, denotes n e v) ->
   forall es vs, Forall2 (rel al) es vs -> forall hp,
-  forallb (fits n ns bound) es = true -> forallb (wfv P) vs = true ->
+  forallb (fits n ns bound okname) es = true -> forallb (wfv P) vs = true ->
   exists vs' hp', eval_seq (eval ns imps vars n) es hp = Ok (vs', hp ++ hp') /\
                   forallb2 (same_shape n h (hp ++ hp')) vs vs' = true.
 Proof.
@@ -133,7 +134,7 @@ Qed.
 Lemma eval_pairs_denotes n :
   (forall e v, denotes n e v) ->
   forall es vs, Forall2 (rel_pair al) es vs -> forall hp,
-  forallb (fun kv => fits n ns bound (fst kv) && fits n ns bound (snd kv)) es = true ->
+  forallb (fun kv => fits n ns bound okname (fst kv) && fits n ns bound okname (snd kv)) es = true ->
   forallb (fun kv => wfv P (fst kv) && wfv P (snd kv)) vs = true ->
   exists vs' hp', eval_pairs (eval ns imps vars n) es hp = Ok (vs', hp ++ hp') /\
     forallb2 (fun p q => same_shape n h (hp ++ hp') (fst p) (fst q) &&
@@ -186,7 +187,7 @@ Proof.
   destruct Hr as [c|m nm|es vs F|i|i x Hx|es vs F].
   - exists (VConst c), []. rewrite app_nil_r. cbn. rewrite const_eqb_refl. auto.
   - exists (lookup_name nm imps), []. rewrite app_nil_r. split; [reflexivity|].
-    apply leaf_same_shape. apply Hnames. exact Hw.
+    apply leaf_same_shape. apply Hnames; [exact Hw | exact Hf].
   - cbn [fits] in Hf. cbn [wfv] in Hw.
     destruct (eval_seq_denotes n IH es vs F hp Hf Hw) as (vs' & hp' & E & S).
     exists (VTuple vs'), hp'. cbn [eval]. rewrite E. cbn [bind]. split; [reflexivity|]. exact S.
@@ -339,7 +340,7 @@ Ltac wf_fin :=
   rewrite ?forallb_app, ?forallb_rev;
   bsplit; try assumption; try reflexivity.
 
-Ltac wf_fin2 HP :=
+Ltac wf_fin2 HPo HPg :=
   constructor; simp_proj;
   repeat match goal with
   | E : cur ?s = _ |- context[cur ?s] => rewrite E
@@ -348,12 +349,15 @@ Ltac wf_fin2 HP :=
   try (apply forallb_set_nth; [assumption|]);
   rewrite ?forallb_app, ?forallb_rev; cbn [forallb wfv obj_wf event_wf fst snd];
   rewrite ?forallb_app, ?forallb_rev; cbn [forallb wfv obj_wf event_wf fst snd];
-  bsplit; try assumption; try reflexivity; try (apply HP; reflexivity);
+  bsplit; try assumption; try reflexivity; try (apply HPo);
+  try (apply HPg; simp_proj; cbn; auto);
   try (apply dict_wf_join; assumption); try (apply memo_put_wf; assumption);
-  try (apply setitem_events_wf; [cbn [wfv]; try apply HP; try reflexivity; try assumption | assumption]).
+  try (apply setitem_events_wf; [cbn [wfv]; try assumption | assumption]).
 
 Lemma wf_step o s s' :
-  (data_op o = true \/ forall v, callable v = true -> P v = true) ->
+  (data_op o = true \/
+   ((forall k, P (VObj k) = true) /\
+    (forall m n, In (EvResolve m n) (log s') -> P (VGlobal m n) = true))) ->
   vstep o s = Ok s' -> WF s -> WF s'.
 Proof.
   intros HP H [Wc Wm Wme Wh Wl Ws].
@@ -361,7 +365,7 @@ Proof.
   all: repeat (progress (fk_inv; eqs; subst; simp_proj; vinv_pairs; crack)).
   all: use_eqs; cbn [forallb wfv] in *; rewrite ?forallb_app, ?forallb_rev in *; bdestr.
   all: try solve [wf_fin].
-  all: try (destruct HP as [HP|HP]; [discriminate HP|]).
+  all: try (destruct HP as [HP|[HPo HPg]]; [discriminate HP|]).
   all: try match goal with
        | G : vget_obj ?i _ = Some ?o |- _ =>
            unfold vget_obj in G; simp_proj;
@@ -380,15 +384,40 @@ Proof.
        | G : rev (cur _) = _ :: _ |- _ =>
            rewrite <- forallb_rev in Wc; rewrite G in Wc; cbn [forallb] in Wc; bdestr
        end.
-  all: try solve [wf_fin2 HP].
+  all: first [solve [wf_fin2 HPo HPg] | solve [wf_fin2 HP HP] | idtac].
   all: constructor; simp_proj; try assumption;
     try (apply memo_put_wf; assumption);
     match goal with E : cur _ = _ |- _ => rewrite E end; cbn [forallb]; bsplit; assumption.
 Qed.
 End WF.
 
+Lemma vstep_log_grows o s s' : vstep o s = Ok s' -> exists ev, log s' = ev ++ log s.
+Proof.
+  intros H. destruct o; cbn [vstep] in H; unfold do_call, find_class in H.
+  all: repeat (progress (fk_inv; eqs; subst; simp_proj; vinv_pairs; crack)).
+  all: rewrite ?fold_vlog_eq; simp_proj.
+  all: try (exists []; reflexivity).
+  all: try (eexists [_]; reflexivity).
+  all: try (eexists [_; _]; reflexivity).
+  all: try (eexists; reflexivity).
+Qed.
+
+Lemma vrun_log_grows : forall p s s', vrun_from p s = Ok s' -> exists ev, log s' = ev ++ log s.
+Proof.
+  induction p as [|o r IH]; intros s s' H; cbn [vrun_from] in H.
+  - inversion H; subst. exists []. reflexivity.
+  - destruct (is_stopped s); [inversion H; subst; exists []; reflexivity|].
+    apply bind_ok in H. destruct H as (s1 & H1 & H).
+    destruct (vstep_log_grows _ _ _ H1) as (e1 & E1). destruct (IH _ _ H) as (e2 & E2).
+    exists (e2 ++ e1). rewrite E2, E1, app_assoc. reflexivity.
+Qed.
+
+(* the invariant along a run, for plain data (no stand-in) or for a leaf predicate that accepts
+   every opaque object and every global the run resolves *)
 Lemma wf_run P : forall p s s',
-  (forallb data_op p = true \/ forall v, callable v = true -> P v = true) ->
+  (forallb data_op p = true \/
+   ((forall k, P (VObj k) = true) /\
+    (forall m n, In (EvResolve m n) (log s') -> P (VGlobal m n) = true))) ->
   vrun_from p s = Ok s' -> WF P s -> WF P s'.
 Proof.
   induction p as [|o r IH]; intros s s' HP H W; cbn [vrun_from] in H.
@@ -398,8 +427,10 @@ Proof.
     apply (IH s1 s'); [| exact H | eapply wf_step; [| exact H1 | exact W]].
     + destruct HP as [HP|HP]; [left | right; exact HP].
       cbn in HP. apply andb_true_iff in HP. tauto.
-    + destruct HP as [HP|HP]; [left | right; exact HP].
-      cbn in HP. apply andb_true_iff in HP. tauto.
+    + destruct HP as [HP|[HPo HPg]]; [left | right; split; [exact HPo|]].
+      * cbn in HP. apply andb_true_iff in HP. tauto.
+      * intros m n Hin. apply HPg. destruct (vrun_log_grows _ _ _ H) as (ev & E). rewrite E.
+        apply in_or_app. right. exact Hin.
 Qed.
 
 Lemma WF_init P : WF P vm_init.
@@ -527,12 +558,14 @@ Section Acyclic.
 Variable ns : list node.
 Variable h : list hobj.
 Variable bound : nat.
+Variable okname : string -> bool.
+Hypothesis Hokname : forall s, okname s = true.
 Hypothesis Hheap : Forall2 (rel_node []) ns h.
 
 Lemma acyclic_fits_list n :
-  (forall e v, same_shape n h h v v = true -> rel [] e v -> fits n ns bound e = true) ->
+  (forall e v, same_shape n h h v v = true -> rel [] e v -> fits n ns bound okname e = true) ->
   forall es vs, Forall2 (rel []) es vs -> forallb2 (same_shape n h h) vs vs = true ->
-  forallb (fits n ns bound) es = true.
+  forallb (fits n ns bound okname) es = true.
 Proof.
   intros IH es vs F. induction F as [|e v es vs Hr F IHF]; cbn; [reflexivity|].
   intros E. apply andb_true_iff in E. destruct E as [E1 E2].
@@ -540,11 +573,11 @@ Proof.
 Qed.
 
 Lemma acyclic_fits_pairs n :
-  (forall e v, same_shape n h h v v = true -> rel [] e v -> fits n ns bound e = true) ->
+  (forall e v, same_shape n h h v v = true -> rel [] e v -> fits n ns bound okname e = true) ->
   forall es vs, Forall2 (rel_pair []) es vs ->
   forallb2 (fun p q : val * val => same_shape n h h (fst p) (fst q) && same_shape n h h (snd p) (snd q))
            vs vs = true ->
-  forallb (fun kv => fits n ns bound (fst kv) && fits n ns bound (snd kv)) es = true.
+  forallb (fun kv => fits n ns bound okname (fst kv) && fits n ns bound okname (snd kv)) es = true.
 Proof.
   intros IH es vs F. induction F as [|[k x] [kv xv] es vs [Hk Hx] F IHF]; cbn; [reflexivity|].
   intros E. apply andb_true_iff in E. destruct E as [E1 E2]. apply andb_true_iff in E1. destruct E1 as [Ek Ex].
@@ -552,12 +585,12 @@ Proof.
 Qed.
 
 Lemma acyclic_fits : forall n e v,
-  same_shape n h h v v = true -> rel [] e v -> fits n ns bound e = true.
+  same_shape n h h v v = true -> rel [] e v -> fits n ns bound okname e = true.
 Proof.
   induction n as [|n IH]; intros e v S Hr; [discriminate|].
   destruct Hr as [c|m nm|es vs F|i|i x Hx|es vs F]; cbn [same_shape] in S.
   - reflexivity.
-  - reflexivity.
+  - cbn. apply Hokname.
   - cbn [fits]. eapply acyclic_fits_list; eauto.
   - cbn [fits]. destruct (nth_error ns i) as [nd|] eqn:En.
     + destruct (node_lookup _ _ _ Hheap _ _ En) as (o & Eo & Ro). rewrite Eo in S.
@@ -586,8 +619,8 @@ Proof.
   rewrite Eb in Eb'. inversion Eb'; subst e' b.
   pose proof (R_heap _ _ _ HR) as Rh.
   pose proof (W_stop _ _ HW) as Wx. rewrite Hx in Wx.
-  assert (fits n (nodes f) 0 e = true) as Hf by (eapply acyclic_fits; eauto).
-  destruct (eval_denotes no_standin [] (nodes f) (heap v) [] [] 0 Rh (W_heap _ _ HW)) with
+  assert (fits n (nodes f) 0 (fun _ => true) e = true) as Hf by (eapply acyclic_fits; eauto).
+  destruct (eval_denotes no_standin [] (nodes f) (heap v) [] [] 0 (fun _ => true) Rh (W_heap _ _ HW)) with
     (n := n) (e := e) (v := x) (hp := @nil hobj) as (r & hp' & E & S); auto.
   - intros i y Hi. lia.
   - intros m nm Hc. discriminate.
